@@ -410,7 +410,7 @@ fn run_case(w: &mut World, g: &mut Gen) -> Outcome {
         // which badges are presented
         let template = call.template();
         let mut presented: BTreeSet<usize> = BTreeSet::new();
-        match g.weighted(&[14, 2, 3, 2, 1]) {
+        match g.weighted(&[14, 2, 3, 2, 1, 2]) {
             0 => {
                 // the badge of a role the template lists (nothing for public methods)
                 if !template.is_empty() {
@@ -425,6 +425,14 @@ fn run_case(w: &mut World, g: &mut Gen) -> Outcome {
                 let role = g.index(3);
                 if let Some(b) = badge_of(&m.rules, env, role) {
                     presented.insert(b);
+                }
+            }
+            5 => {
+                // the proposer tries to confirm its own proposal
+                if let Call::QuickRecovery(a) | Call::QuickWithdraw(a) = call {
+                    if let Some(b) = badge_of(&m.rules, env, a) {
+                        presented.insert(b);
+                    }
                 }
             }
             3 => {
